@@ -12,7 +12,7 @@ func init() {
 	register(&propDef{
 		ID:      "C13",
 		Level:   "other",
-		Explain: "Redirect routes, decided structurally; sites are found by ROLE in the region of the exported entry points (ServeHTTP, Table.Lookup, BuildRedirectURL), not by the name of the function that contains them. (S1) no store to a route.Target (incl. its RedirectURL and the url.URL behind it) reachable from a per-request entry unless the target object is a per-request copy — the 'under any number of simultaneous requests' clause, decided for all schedules by the shared-state engine; (G1) path-sensitive abstract interpretation of ServeHTTP and the repository helpers it calls (state: RedirectCode zero/non-zero, RedirectURL nil/non-nil, access gate passed, auth gate passed, redirect answered; helpers are entered with the caller's state and their boolean verdict is correlated with the states at their returns): the redirect answer (http.Redirect / http.RedirectHandler(..).ServeHTTP) is written only where RedirectCode != 0 is established and both gates are passed, carries Target.RedirectURL/RedirectCode, and every upstream-contact site is reached only in states 'not a redirect target' and never after the answer; (C1) interval analysis of Target.RedirectCode in every function that stores it (targets the function did not create are assumed in range, by induction): at every exit and where the target joins Route.Targets the code is in {0} ∪ [300,399] on all paths, including the strconv.Atoi error edge (Atoi returns the clamped value on range errors); stored values are evaluated through parse helpers (union over their returns under the branch conditions there), local variables and integer conversions; (P1) in the region of BuildRedirectURL the $path/$host replacements derive from the request URL parameter, the strip operation (slice from len(StripPath) / strings.TrimPrefix / CutPrefix) is never applied to a value that already carries PrependPath, and a request-derived query is stored only where the template's / location's own query is known to be empty; (L1) wherever the region of Table.Lookup knows 'the location equals the request' (block or branch edge) the value handed on (returned, or carried round the host loop) is nil, and every loop edge taken with a redirect target in hand carries nil; (L2) at those places scheme, full host:port and path are all known equal; (E2) every caller of BuildRedirectURL hands it the request URL itself or a copy carrying RawPath (also through a cloning helper or a helper parameter). Not decided: the text of the Location for each template form (string contents, e.g. %2F with https://$host$path).",
+		Explain: "Redirect routes, decided structurally; sites are found by ROLE in the region of the exported entry points (ServeHTTP, Table.Lookup) and of the location builder, which is itself found by role (the functions of package route from whose *url.URL - or, failing that, *http.Request - parameter the \"$path\" substitution derives: BuildRedirectURL today, equally a pure function that returns the location and lets Table.Lookup store it). (S1) no store to a route.Target (incl. its RedirectURL and the url.URL behind it) reachable from a per-request entry unless the target object is a per-request copy — the 'under any number of simultaneous requests' clause, decided for all schedules by the shared-state engine; (G1) path-sensitive abstract interpretation of ServeHTTP and the repository helpers it calls (state: RedirectCode zero/non-zero, RedirectURL nil/non-nil, access gate passed, auth gate passed, redirect answered; helpers are entered with the caller's state and every result they hand back is correlated with the states at their returns: a boolean verdict, nil / non-nil of a pointer-like result such as the admitted target or an error, the value of an integer constant of an enum verdict, one component of a result tuple - so that `t := p.admit(w, r); if t == nil { return }` selects the states in which the helper returned a target): the redirect answer (http.Redirect / http.RedirectHandler(..).ServeHTTP) is written only where RedirectCode != 0 is established and both gates are passed, carries Target.RedirectURL/RedirectCode, and every upstream-contact site is reached only in states 'not a redirect target' and never after the answer; (C1) interval analysis of Target.RedirectCode in every function that stores it (targets the function did not create are assumed in range, by induction): at every exit and where the target joins Route.Targets the code is in {0} ∪ [300,399] on all paths, including the strconv.Atoi error edge (Atoi returns the clamped value on range errors); stored values are evaluated through parse helpers (union over their returns under the branch conditions there; for a helper with several results only over the returns compatible with what is known about the other results, e.g. err == nil), local variables and integer conversions; (P1) in the region of the builder family the $path/$host replacements derive from the request parameter (never from the configuration fields of a target), the strip operation (slice from len(StripPath) / strings.TrimPrefix / CutPrefix) is never applied to a value that already carries PrependPath, and a request-derived query is stored into the location under construction (the url.URL that receives the substitution results) only where the template's / location's own query is known to be empty; (L1) wherever the region of Table.Lookup knows 'the location equals the request' (block or branch edge; the location is Target.RedirectURL or a value stored there; the comparisons may sit in a boolean predicate helper) the value handed on (returned, or carried round the host loop) is nil, and every loop edge taken with a redirect target in hand carries nil; (L2) at those places scheme, full host:port and path are all known equal; (E2) every caller of a function of the builder family hands it the request URL itself or a copy carrying RawPath (also through a cloning helper or a helper parameter; a member that passes its own parameter on is checked at its callers), and every url.URL assembled in package route from request fields from which the $path replacement derives carries RawPath. Not decided: the text of the Location for each template form (string contents, e.g. %2F with https://$host$path).",
 		Run:     runC13,
 		Trusted: []string{"strconv.Atoi contract (value clamped on range error)", "net/http.Redirect writes the given status and Location"},
 		Mutants: append([]mutant{
@@ -28,7 +28,7 @@ func init() {
 			{Name: "skipped redirect kept", File: "route/table.go", Old: "\t\t\t\t\ttarget = nil\n\t\t\t\t\tcontinue", New: "\t\t\t\t\tcontinue", Expect: "C13.L1"},
 			{Name: "self-redirect test ignores the port", File: "route/table.go", Old: "target.RedirectURL.Host == req.Host &&", New: "target.RedirectURL.Hostname() == req.URL.Hostname() &&", Expect: "C13.L2"},
 			{Name: "benign: return built URL through a local", File: "route/table.go", Old: "redirect.BuildRedirectURL(req.URL)", New: "ru := req.URL\n\t\t\t\tredirect.BuildRedirectURL(ru)", Expect: ""},
-		}, c13moreMutants...),
+		}, append(c13moreMutants, c13round2Mutants...)...),
 	})
 }
 
@@ -98,7 +98,8 @@ func c13phiFacts(phi *ssa.Phi, truth bool, depth int) []Fact {
 	return c13expandFacts(out, depth+1)
 }
 
-// c13expandFacts adds, for every fact about a merged boolean, the facts that decided it.
+// c13expandFacts adds, for every fact about a merged boolean, the facts that decided it, and for every fact about the
+// verdict of a repository predicate (`if pointsBack(loc, req)`) what the predicate knows where it returns that verdict.
 func c13expandFacts(facts []Fact, depth int) []Fact {
 	out := facts
 	for _, f := range facts {
@@ -110,11 +111,51 @@ func c13expandFacts(facts []Fact, depth int) []Fact {
 			}
 			cond, truth = u.X, !truth
 		}
-		if phi, ok := cond.(*ssa.Phi); ok {
-			out = append(out, c13phiFacts(phi, truth, depth)...)
+		switch x := cond.(type) {
+		case *ssa.Phi:
+			out = append(out, c13phiFacts(x, truth, depth)...)
+		case *ssa.Call:
+			out = append(out, c13verdictFacts(x, truth, depth)...)
 		}
 	}
 	return out
+}
+
+// c13verdictFacts: what follows from "the call of a boolean repository helper returned truth": when exactly one of
+// its returns can yield that value, everything known at that return holds (in terms of the helper's own values; its
+// parameters stand for the arguments, which derives / c13args resolve).
+func c13verdictFacts(call *ssa.Call, truth bool, depth int) []Fact {
+	sc := call.Call.StaticCallee()
+	if depth > 2 || sc == nil || !isRepoFn(sc) || len(sc.Blocks) == 0 {
+		return nil
+	}
+	if res := sc.Signature.Results(); res.Len() != 1 || typeStr(res.At(0).Type()) != "bool" {
+		return nil
+	}
+	var ret *ssa.Return
+	n := 0
+	for _, b := range sc.Blocks {
+		if len(b.Instrs) == 0 {
+			continue
+		}
+		r, ok := b.Instrs[len(b.Instrs)-1].(*ssa.Return)
+		if !ok || len(r.Results) != 1 {
+			continue
+		}
+		if k, isK := constBool(r.Results[0]); isK && k != truth {
+			continue
+		}
+		ret = r
+		n++
+	}
+	if n != 1 {
+		return nil
+	}
+	out := append([]Fact{}, localFactsAt(ret.Block())...)
+	if _, isK := constBool(ret.Results[0]); !isK {
+		out = append(out, Fact{ret.Results[0], truth})
+	}
+	return c13expandFacts(out, depth+1)
 }
 
 // c13factsAt: factsAt with merged booleans resolved.
@@ -191,62 +232,73 @@ func c13redirectFact(facts []Fact) bool {
 	return false
 }
 
-// c13buildFn: the method that builds the per-request location (BuildRedirectURL, or whatever stores Target.RedirectURL).
-func c13buildFn(c *Ctx) *ssa.Function {
-	if f := c.method("route", "Target", "BuildRedirectURL"); f != nil && len(f.Blocks) > 0 {
-		return f
+// c13configField: v is read from the configuration of a route.Target (a field chain rooted at a field other than the
+// per-request RedirectURL, e.g. t.URL.RawQuery, t.StripPath): such a value is not request-derived, even where the
+// target object is the request's own copy that also holds the location (derives is field-insensitive on local copies).
+func c13configField(v ssa.Value) bool {
+	for depth := 0; depth < 6; depth++ {
+		if u, ok := v.(*ssa.UnOp); ok && u.Op == token.MUL {
+			v = u.X
+		}
+		var base ssa.Value
+		var name string
+		switch x := v.(type) {
+		case *ssa.FieldAddr:
+			base, name = x.X, fieldName(x.X.Type(), x.Field)
+		case *ssa.Field:
+			base, name = x.X, fieldName(x.X.Type(), x.Field)
+		default:
+			return false
+		}
+		if namedIs(base.Type(), "route.Target") {
+			return name != "RedirectURL"
+		}
+		v = base
 	}
-	role := func(f *ssa.Function) bool { return fnStoresField(f, "route.Target", "RedirectURL") }
-	if f := c.methodByRole("route", "Target", "BuildRedirectURL", role); f != nil {
-		return f
+	return false
+}
+
+// c13requestField: v is (the address of / a load of) a field of an http.Request - per-request by type.
+func c13requestField(v ssa.Value) bool {
+	if u, ok := v.(*ssa.UnOp); ok && u.Op == token.MUL {
+		v = u.X
 	}
-	return c.fnByRole("route", "BuildRedirectURL", role) // inlined into / renamed to a plain function of the package
+	switch x := v.(type) {
+	case *ssa.FieldAddr:
+		return namedIs(x.X.Type(), "http.Request")
+	case *ssa.Field:
+		return namedIs(x.X.Type(), "http.Request")
+	}
+	return false
 }
 
 func runC13P1(c *Ctx) {
-	b := c13buildFn(c)
-	if !c.need("C13.P1", b, "route.Target.BuildRedirectURL") {
+	bi := c13findBuilders(c)
+	if len(bi.fns) == 0 {
+		c.undecided("C13.P1", "anchor|location builder", "no function of package route has a *url.URL (or *http.Request) parameter from which a \"$path\" substitution derives: the builder of the redirect location does not resolve")
 		return
 	}
-	var reqParams []*ssa.Parameter
-	for _, p := range b.Params {
-		if ts := typeStr(p.Type()); ts == "*net/url.URL" || ts == "*net/http.Request" {
-			reqParams = append(reqParams, p)
-		}
-	}
-	if len(reqParams) == 0 {
-		c.undecided("C13.P1", "anchor|requestURL parameter", "BuildRedirectURL has no *url.URL (or *http.Request) parameter")
-		return
-	}
-	isReq := func(x ssa.Value) bool {
-		for _, p := range reqParams {
-			if x == p {
-				return true
-			}
-		}
-		return false
-	}
-	fromReq := func(v ssa.Value) bool { return derives(v, isReq) }
-	reg := c.region(b)
+	isReq := func(x ssa.Value) bool { return bi.isParam(x) || c13requestField(x) }
+	fromReq := func(v ssa.Value) bool { return !c13configField(v) && derives(v, isReq) }
+	reg := c.region(bi.fns...)
 	nPath, nHost := 0, 0
 	eachInstrOf(reg, func(f *ssa.Function, i ssa.Instruction) {
 		cc := callCommon(i)
 		if cc == nil {
 			return
 		}
-		n := calleeName(cc)
-		if !(n == "strings.Replace" && len(cc.Args) == 4) && !(n == "strings.ReplaceAll" && len(cc.Args) == 3) {
+		old, repl, ok := c13subst(cc)
+		if !ok {
 			return
 		}
-		old, _ := constString(cc.Args[1])
 		switch old {
 		case "$path":
 			nPath++
-			c.check("C13.P1", "route.(*Target).BuildRedirectURL|$path replaced by the request path", i.Pos(), fromReq(cc.Args[2]),
+			c.check("C13.P1", "route.(*Target).BuildRedirectURL|$path replaced by the request path", i.Pos(), fromReq(repl),
 				"the $path replacement must derive from the requestURL parameter (this request's path), not from state of the shared target")
 		case "$host":
 			nHost++
-			c.check("C13.P1", "route.(*Target).BuildRedirectURL|$host replaced by the request host", i.Pos(), fromReq(cc.Args[2]),
+			c.check("C13.P1", "route.(*Target).BuildRedirectURL|$host replaced by the request host", i.Pos(), fromReq(repl),
 				"the $host replacement must derive from the requestURL parameter (this request's host)")
 		}
 	})
@@ -315,6 +367,39 @@ func runC13P1(c *Ctx) {
 		}
 		return false
 	}
+	// the location under construction: the url.URL that receives the result of a $path / $host substitution (or is
+	// Target.RedirectURL / stored there) — a field-wise copy of the request URL made on the way is not it
+	var locVals []ssa.Value
+	locPaths := map[string]bool{}
+	eachInstrOf(reg, func(f *ssa.Function, i ssa.Instruction) {
+		st, ok := i.(*ssa.Store)
+		if !ok {
+			return
+		}
+		fa, ok := st.Addr.(*ssa.FieldAddr)
+		if !ok || !namedIs(fa.X.Type(), "url.URL") {
+			return
+		}
+		if call, isCall := st.Val.(*ssa.Call); isCall {
+			if _, _, isSubst := c13subst(&call.Call); isSubst {
+				locVals = append(locVals, fa.X)
+				locPaths[accessPath(fa.X)] = true
+			}
+		}
+	})
+	isLocObj := func(x ssa.Value) bool {
+		for _, a := range c13args(x, 0) {
+			if c13isLocation(a) || locPaths[accessPath(a)] {
+				return true
+			}
+			for _, l := range locVals {
+				if l == a {
+					return true
+				}
+			}
+		}
+		return false
+	}
 	nQ := 0
 	eachInstrOf(reg, func(f *ssa.Function, i ssa.Instruction) {
 		st, ok := i.(*ssa.Store)
@@ -322,7 +407,7 @@ func runC13P1(c *Ctx) {
 			return
 		}
 		fa, ok := st.Addr.(*ssa.FieldAddr)
-		if !ok || !namedIs(fa.X.Type(), "url.URL") || fieldName(fa.X.Type(), fa.Field) != "RawQuery" || !fromReq(st.Val) {
+		if !ok || !namedIs(fa.X.Type(), "url.URL") || fieldName(fa.X.Type(), fa.Field) != "RawQuery" || !fromReq(st.Val) || !isLocObj(fa.X) {
 			return
 		}
 		nQ++
@@ -344,7 +429,7 @@ func runC13P1(c *Ctx) {
 
 // c13onRedirectURL: v is read from the location built for the request (a field of, or a url.URL method on, Target.RedirectURL).
 func c13onRedirectURL(v ssa.Value) bool {
-	isRU := func(x ssa.Value) bool { return c13targetField(x, "RedirectURL") }
+	isRU := c13isLocation
 	if call, ok := v.(*ssa.Call); ok && !call.Call.IsInvoke() && strings.HasPrefix(calleeName(&call.Call), "(*net/url.URL).") && len(call.Call.Args) > 0 {
 		return derives(call.Call.Args[0], isRU)
 	}
